@@ -540,7 +540,7 @@ def run(tier, seed, replay=None):
     cert = dict(out_class_points=hist_cls["out"], rule="at most 8 per case, boundary pushes first", submitted=sum(len(p) for _, p, _ in jobs), accepted=0, rejected=0)
     try:
         outs = sc.coq_eval_blocks(PID, sc.CERT_HEADER, [e for _, _, e in jobs], tag="cert",
-                                  per_file=max(2, len(jobs) // (cm.NCPU * 3) + 1), timeout=1500)
+                                  per_file=max(2, len(jobs) // cm.NCPU + 1), timeout=1500)
         for (ci, pts, _), o in zip(jobs, outs):
             verdicts = [x.strip() == "true" for x in o.strip().strip("[]").split(";")]
             if len(verdicts) != len(pts):
@@ -575,7 +575,7 @@ def run(tier, seed, replay=None):
     band_diff = 0
     n_exact = 0
     try:
-        outs = sc.coq_eval_blocks(PID, sc.HEADER, exprs, per_file=max(4, len(exprs) // (cm.NCPU * 3) + 1))
+        outs = sc.coq_eval_blocks(PID, sc.HEADER, exprs, per_file=max(4, len(exprs) // cm.NCPU + 1))
         for i, o in zip(idx, outs):
             m = sc.parse_coq_value(o)
             impl = [1 if b else 0 for b in results[i]["contained"]]
